@@ -97,6 +97,14 @@ fn roundtrip<T: HasId>(name: &str) {
                     need!(it.len() == 1, "C18 Vec<T>: deserialize consumes exactly the felts serialize appended");
                     let v = match y { Ok(v) => v, Err(e) => return Err(("C18 Vec<T>: deserialize(serialize(x)) is Ok", format!("{:?}", e))) };
                     need!(v.len() == len && (0..len).all(|k| v[k].id() == ids[k] && v[k].unnamed()), "C18 Vec<T>: same ids in the same order, debug names dropped");
+                    // the same vector as the LAST thing in the stream (the function list of a program is):
+                    // nothing follows, the declared length equals the remaining felts exactly
+                    let last: Vec<BigUint> = out[2..].iter().map(|h| h.value.clone()).collect();
+                    let mut it = last.iter();
+                    let y = Vec::<T>::deserialize(&mut it);
+                    need!(it.len() == 0, "C18 Vec<T>: deserialize consumes the whole stream when the vector is its last item");
+                    let v = match y { Ok(v) => v, Err(e) => return Err(("C18 Vec<T>: deserialize(serialize(x)) is Ok when the vector ends the stream", format!("{:?}", e))) };
+                    need!(v.len() == len && (0..len).all(|k| v[k].id() == ids[k]), "C18 Vec<T>: same ids when the vector ends the stream");
                     Ok(())
                 });
             }
